@@ -614,9 +614,8 @@ func (d *dec) structBody(s *Struct, v int) (*Rec, error) {
 	if n > d.maxTagCount {
 		d.maxTagCount = n
 	}
-	if d.lenient && n > uint64(len(d.in)) {
-		return nil, errShort // the loop spins n times, but nothing more is parsed
-	}
+	// (every iteration below consumes at least two bytes or ends the decode, so the
+	// loop is bounded by the input length whatever n claims)
 	known := map[uint32]*Field{}
 	for _, f := range s.Tags() {
 		if f.Present(s, v) {
